@@ -52,6 +52,9 @@ class Target(object):
         CALLS.append(("_pyroRelease",))
 
 
+KNOWN = []
+
+
 def request(path, query="", method="GET", headers=None):
     env = {"REQUEST_METHOD": method, "PATH_INFO": path, "QUERY_STRING": query, "wsgi.errors": io.StringIO()}
     env.update(headers or {})
@@ -177,6 +180,31 @@ def main(mode):
         n = len([c for c in CALLS if c[0] == "slow"])
         if n != 1 or not status.startswith("500"):
             fail = fail or {"object": "http.obj", "member": "slow", "gateway_timeout": 0.3, "violated": "one HTTP request caused %d invocations (status %s)" % (n, status)}
+        # exactly the query parameters are forwarded: empty values included
+        gw.pyro_app.comm_timeout = 0.0
+        for qs in ([("a", "")], [("a", ""), ("b", "1")]):
+            runs += 1
+            del CALLS[:]
+            status, body = request("/pyro/http.obj/echo", urllib.parse.urlencode(qs))
+            expect = [("echo", tuple(sorted(qs)))]
+            if CALLS != expect:
+                fail = fail or {"object": "http.obj", "member": "echo", "query": urllib.parse.urlencode(qs),
+                                "violated": "object invocations %r, expected %r (a parameter with an empty value was dropped)" % (CALLS, expect)}
+        # listed known findings: a path containing a newline is cut there; a non-ASCII object name in the path arrives latin-1-decoded
+        runs += 1
+        del CALLS[:]
+        del LOOKUPS[:]
+        status, body = request("/pyro/http.obj/ping\nxyz/abc")
+        if CALLS == [("ping",)] and status.startswith("200"):
+            KNOWN.append("C20-path-with-newline-truncated")
+        elif CALLS:
+            fail = fail or {"path": "/pyro/http.obj/ping\\nxyz/abc", "violated": "invocations %r" % (CALLS,)}
+        runs += 1
+        del LOOKUPS[:]
+        wire_path = "/pyro/http.caf\u00e9/ping".encode("utf-8").decode("latin-1")      # what a WSGI server hands over for /pyro/http.caf%C3%A9/ping
+        status, body = request(wire_path)
+        if LOOKUPS and LOOKUPS != ["http.caf\u00e9"]:
+            KNOWN.append("C20-non-ascii-path-latin1")
         # non-call requests
         for path, meth, want in (("/pyro/http.obj", "GET", "404"), ("/other", "GET", "404"), ("/pyro/http.obj/ping", "PUT", "405"), ("/pyro/http.obj/ping", "DELETE", "405")):
             runs += 1
@@ -191,7 +219,7 @@ def main(mode):
         gw.pyro_app.comm_timeout = config.COMMTIMEOUT
         d.shutdown()
         nsdaemon.shutdown()
-    rep = {"runs": runs, "failing_input": fail, "wall_s": round(time.time() - t0, 2),
+    rep = {"runs": runs, "failing_input": fail, "known_findings_reproduced": KNOWN, "wall_s": round(time.time() - t0, 2),
            "bounded": [{"what": "real pyro_app over an in-process name server and daemon with lookup / invocation counters",
                         "bound": "key settings x object names (prefix/suffix/case near-misses) x members x ways of presenting the key; timeout scenario; non-call requests",
                         "runs": runs, "failures": 0 if fail is None else 1}]}
